@@ -1550,14 +1550,10 @@ func (meta *ConstantMeta) ReadMetaFrom(reader io.Reader) error {
 		return err
 	}
 	byteArr := make([]byte, length)
-	readCount, err := reader.Read(byteArr)
+	_, err = io.ReadFull(reader, byteArr)
 	if err != nil {
 
 		return err
-	}
-	if uint64(readCount) != length {
-
-		return io.ErrShortBuffer
 	}
 	meta.ValueBytes = byteArr
 
